@@ -335,6 +335,7 @@ RESET_TIMER:
 		}
 
 		s.mu.Unlock()
+		verifYield("read.block")
 
 		// if it runs here, that means we have to block the call, and wait until the
 		// next data packet arrives.
@@ -426,6 +427,7 @@ RESET_TIMER:
 		}
 
 		s.mu.Unlock()
+		verifYield("write.block")
 
 		// if it runs here, that means we have to block the call, and wait until the
 		// transmit buffer to become available again.
@@ -472,6 +474,7 @@ func (s *UDPSession) Close() error {
 	}
 
 	atomic.AddUint64(&DefaultSnmp.CurrEstab, ^uint64(0))
+	verifYield("close.afterdie")
 
 	// try best to send all queued messages especially the data in txqueue
 	s.mu.Lock()
@@ -773,6 +776,7 @@ func (s *UDPSession) postProcess() {
 					// or context is cancelled. In either case, we continue sending.
 					_ = limiter.WaitN(ctx, bytesToSend)
 				}
+				verifYield("post.tx")
 				s.tx(txqueue)
 				s.kcp.debugLog(IKCP_LOG_OUTPUT, "conv", s.kcp.conv, "datalen", bytesToSend)
 				// recycle
@@ -800,6 +804,7 @@ func (s *UDPSession) postProcess() {
 
 // sess update to trigger protocol
 func (s *UDPSession) update() {
+	verifYield("update.entry")
 	select {
 	case <-s.die:
 	default:
@@ -1264,11 +1269,13 @@ func (l *Listener) packetInput(data []byte, addr net.Addr) {
 	}
 
 	// new session
+	verifYield("listener.newsess")
 	s = newUDPSession(conv, l.dataShards, l.parityShards, l, l.conn, false, addr, l.block)
 	s.kcpInput(data)
 	l.sessionLock.Lock()
 	l.sessions[addr.String()] = s
 	l.sessionLock.Unlock()
+	verifYield("listener.accept")
 	l.chAccepts <- s
 }
 
@@ -1347,6 +1354,7 @@ func (l *Listener) AcceptKCP() (*UDPSession, error) {
 
 		timeout = timer.C
 	}
+	verifYield("accept.block")
 
 	select {
 	case <-timeout:
